@@ -77,6 +77,9 @@ type c04Sys struct {
 	w2 *world.L2
 }
 
+// c04Bridge is the bridge of the rollup under test; its committing output has index 2 (index and id differ).
+const c04Bridge = 3
+
 func newC04Sys() *c04Sys {
 	huge, _ := math.NewIntFromString("1" + strings.Repeat("0", 60))
 	coins := sdk.Coins{}
@@ -86,8 +89,11 @@ func newC04Sys() *c04Sys {
 	w1 := world.NewL1(world.L1Options{Accounts: map[string]sdk.Coins{
 		"proposer": nil, "challenger": nil, "creator": nil, "submitter": nil, "bob": nil, "alice": coins,
 	}})
-	if res := w1.Deliver(w1.Ctx, ophosttypes.NewMsgCreateBridge(world.Addr("creator").String(), world.BridgeConfig("proposer", "challenger", c04Period))); !res.OK() {
-		panic(res.Err)
+	// the rollup's bridge is one of several on this L1: ids 1, 2 and 4 belong to other rollups
+	for i := 0; i < 4; i++ {
+		if res := w1.Deliver(w1.Ctx, ophosttypes.NewMsgCreateBridge(world.Addr("creator").String(), world.BridgeConfig("proposer", "challenger", c04Period))); !res.OK() {
+			panic(res.Err)
+		}
 	}
 	w2 := world.NewL2(world.L2Options{Accounts: map[string]sdk.Coins{"alice": nil, "bob": nil, "executor": nil, "admin": nil}})
 	return &c04Sys{w1: w1, w2: w2}
@@ -110,7 +116,7 @@ func (y *c04Sys) runTree(descs []c04Desc) (c04Result, *engine.Violation) {
 	// relay: the deposit goes through the real L1 handler; what reaches L2 is exactly what L1's event
 	// announces (sender spelling included), as a faithful executor would relay it
 	relayFrom := func(sender, to string, coin sdk.Coin, l1denom string) (world.DeliverResult, bool) {
-		res := y.w1.Deliver(c1, ophosttypes.NewMsgInitiateTokenDeposit(sender, 1, to, coin, nil))
+		res := y.w1.Deliver(c1, ophosttypes.NewMsgInitiateTokenDeposit(sender, c04Bridge, to, coin, nil))
 		r.transitions++
 		if !res.OK() {
 			return res, false
@@ -137,7 +143,7 @@ func (y *c04Sys) runTree(descs []c04Desc) (c04Result, *engine.Violation) {
 			if err != nil || !ok {
 				return viol("withdrawal-event-parsable", "event seq=%q amount=%q", g("l2_sequence"), g("amount"))
 			}
-			w := wd{Bridge: 1, Seq: seq, From: g("from"), To: g("to"), Denom: g("base_denom")}
+			w := wd{Bridge: c04Bridge, Seq: seq, From: g("from"), To: g("to"), Denom: g("base_denom")}
 			if amt.IsUint64() {
 				w.Amount = amt.Uint64()
 			} else {
@@ -151,7 +157,7 @@ func (y *c04Sys) runTree(descs []c04Desc) (c04Result, *engine.Violation) {
 	}
 	for i, d := range descs {
 		amt, _ := math.NewIntFromString(d.Amount)
-		l2d := ref.L2Denom(1, d.Denom)
+		l2d := ref.L2Denom(c04Bridge, d.Denom)
 		switch d.Kind {
 		case "refund", "refund-upper-sender", "refund-blank-recipient":
 			sender := alice.String()
@@ -187,7 +193,7 @@ func (y *c04Sys) runTree(descs []c04Desc) (c04Result, *engine.Violation) {
 			if d.Kind == "executor-direct-empty-recipient" {
 				to = ""
 			}
-			if err := y.w1.BK.SendCoins(c1, alice, ref.BridgeAddress(1), sdk.NewCoins(sdk.NewCoin(d.Denom, amt))); err != nil {
+			if err := y.w1.BK.SendCoins(c1, alice, ref.BridgeAddress(c04Bridge), sdk.NewCoins(sdk.NewCoin(d.Denom, amt))); err != nil {
 				panic(err)
 			}
 			l1seq++
@@ -215,7 +221,7 @@ func (y *c04Sys) runTree(descs []c04Desc) (c04Result, *engine.Violation) {
 			}
 			key := world.SecpKey("alice")
 			data := signHookTx(y.w2, hookMsgs, key, key.PubKey(), acc.GetAccountNumber(), acc.GetSequence(), c2.ChainID())
-			res := y.w1.Deliver(c1, ophosttypes.NewMsgInitiateTokenDeposit(alice.String(), 1, alice.String(), sdk.NewCoin(d.Denom, amt), data))
+			res := y.w1.Deliver(c1, ophosttypes.NewMsgInitiateTokenDeposit(alice.String(), c04Bridge, alice.String(), sdk.NewCoin(d.Denom, amt), data))
 			r.transitions++
 			if !res.OK() {
 				r.refusedAtEntry++
@@ -251,7 +257,7 @@ func (y *c04Sys) runTree(descs []c04Desc) (c04Result, *engine.Violation) {
 				if err := y.w2.BK.SendCoinsFromModuleToAccount(c2, authtypes.Minter, alice, extra); err != nil {
 					panic(err)
 				}
-				if err := y.w1.BK.SendCoins(c1, alice, ref.BridgeAddress(1), sdk.NewCoins(sdk.NewCoin(d.Denom, amt.SubRaw(1)))); err != nil {
+				if err := y.w1.BK.SendCoins(c1, alice, ref.BridgeAddress(c04Bridge), sdk.NewCoins(sdk.NewCoin(d.Denom, amt.SubRaw(1)))); err != nil {
 					panic(err)
 				}
 			}
@@ -273,19 +279,32 @@ func (y *c04Sys) runTree(descs []c04Desc) (c04Result, *engine.Violation) {
 		return r, nil
 	}
 	t := mkTree("c04", wds, 0)
-	// the committing output is the bridge's second of three (index 2 on bridge 1: index and bridge id differ,
+	// the neighbours live their own lives: bridges 1 and 4 each get an output before ours …
+	neighbour := ref.Sum256([]byte("a neighbour's output"))
+	for _, nb := range []uint64{1, 4} {
+		if res := y.w1.Deliver(c1, ophosttypes.NewMsgProposeOutput(world.Addr("proposer").String(), nb, 1, 7, neighbour[:])); !res.OK() {
+			return r, viol("harness-expectation", "neighbour bridge %d: proposal failed: %v", nb, res.Err)
+		}
+	}
+	// the committing output is the bridge's second of three (index 2 on bridge 3: index and bridge id differ,
 	// and it is neither the oldest nor the newest final output when the claims are made)
 	other := ref.Sum256([]byte("an earlier output"))
-	if res := y.w1.Deliver(c1, ophosttypes.NewMsgProposeOutput(world.Addr("proposer").String(), 1, 1, 5, other[:])); !res.OK() {
+	if res := y.w1.Deliver(c1, ophosttypes.NewMsgProposeOutput(world.Addr("proposer").String(), c04Bridge, 1, 5, other[:])); !res.OK() {
 		return r, viol("faithful-proposal-is-accepted", "proposal failed: %v", res.Err)
 	}
-	if res := y.w1.Deliver(c1, ophosttypes.NewMsgProposeOutput(world.Addr("proposer").String(), 1, 2, 10, t.OutputRoot[:])); !res.OK() {
+	if res := y.w1.Deliver(c1, ophosttypes.NewMsgProposeOutput(world.Addr("proposer").String(), c04Bridge, 2, 10, t.OutputRoot[:])); !res.OK() {
 		return r, viol("faithful-proposal-is-accepted", "proposal failed: %v", res.Err)
 	}
 	// ... and not its last one: a later output is proposed (and becomes final) before the claims are made
 	later := ref.Sum256([]byte("a later output"))
-	if res := y.w1.Deliver(c1, ophosttypes.NewMsgProposeOutput(world.Addr("proposer").String(), 1, 3, 20, later[:])); !res.OK() {
+	if res := y.w1.Deliver(c1, ophosttypes.NewMsgProposeOutput(world.Addr("proposer").String(), c04Bridge, 3, 20, later[:])); !res.OK() {
 		return r, viol("faithful-proposal-is-accepted", "proposal failed: %v", res.Err)
+	}
+	// … and both are challenged and rolled back while ours are pending
+	for _, nb := range []uint64{4, 1} {
+		if res := y.w1.Deliver(c1, ophosttypes.NewMsgDeleteOutput(world.Addr("challenger").String(), nb, 1)); !res.OK() {
+			return r, viol("harness-expectation", "neighbour bridge %d: roll-back failed: %v", nb, res.Err)
+		}
 	}
 	r.transitions++
 	c1 = world.Advance(c1, c04Period+time.Second)
